@@ -95,6 +95,7 @@ func runC14(c *ctxT) {
 		c.emit(sx.L(sx.S("late"), sx.S("mbapp-ask"), sx.I(i)), sx.L(sx.S(st), sx.I(boolInt(written))))
 		c.count("own/late-reply")
 	}
+	c14Extras(c)
 	// buffer ownership in swarmutil.Queue: callbacks that Deliver into the queue they are being served from
 	for i := 0; i < c.scale(150, 3000); i++ {
 		queueBuf(c, c.rng.Fork())
